@@ -20,10 +20,30 @@ ASSUMPTIONS = ["attribute-order irrelevance is shown on the model for lookups (a
 
 HDR = {"content-type": "application/xml; charset=utf-8"}
 XHTML = ["<p>plain <b>bold</b> text</p>", "<div><ul><li>a</li><li>b &amp; c</li></ul></div>", "<p>x<br/>y</p>", '<p><a href="http://example.org/?a=1&amp;b=2" title="t">l</a> <em>e</em></p>',
-         "<blockquote><p>q &lt; r</p></blockquote>", '<p><img src="http://example.org/i.png" alt="a &quot;b&quot;" width="1" height="2"/></p>', "<p>1 &#60; 2 &#x26; 3</p>"]
+         "<blockquote><p>q &lt; r</p></blockquote>", "<p>Type &amp;lt;b&amp;gt; for bold, &amp;amp; for an ampersand and &amp;#160; for a space</p>", "<pre>if (a &amp;amp;&amp;amp; b) x &amp;lt;&amp;lt;= 1; /* &amp;copy; */</pre>", '<p><img src="http://example.org/i.png" alt="a &quot;b&quot;" width="1" height="2"/></p>', "<p>1 &#60; 2 &#x26; 3</p>"]
+
+
+def respell_ns_case(rng, doc):
+    """re-spell the URIs of RECOGNISED namespaces in another letter case (feedparser recognises them case-insensitively, so such a
+    document is a feed over the handled vocabularies like any other; it is the BASE document of the variants, not a variant)"""
+    def sub(m):
+        uri = m.group(3)
+        if not recognised(uri) or rng.random() < 0.4:
+            return m.group(0)
+        k = rng.randrange(3)
+        new = uri.upper() if k == 0 else (re.sub(r"[a-z]+", lambda w: w.group(0).upper() if rng.random() < 0.5 else w.group(0), uri) if k == 1 else uri[:7] + uri[7:].swapcase())
+        return "%s=%s%s%s" % (m.group(1), m.group(2), new, m.group(2))
+    return re.sub(r"""(xmlns(?::[\w.-]+)?)=(["'])([^"']*)\2""", sub, doc.decode("utf-8")).encode("utf-8")
 
 
 def gen_doc(rng):
+    d, k = gen_doc0(rng)
+    if rng.random() < 0.2:
+        return respell_ns_case(rng, d), k + "+nscase"
+    return d, k
+
+
+def gen_doc0(rng):
     r = rng.random()
     if r < 0.35:
         af = feedgen.abstract_feed(rng, special=True)
